@@ -64,6 +64,25 @@ AllVerts(g) == CASE g.t = "Point" -> (IF g.c = <<>> THEN <<>> ELSE <<g.c>>)
                  [] g.t \in {"Polygon","MultiLineString"} -> CatAll(g.c)
                  [] g.t = "MultiPolygon" -> CatAll([i \in 1..Len(g.c) |-> CatAll(g.c[i])])
                  [] OTHER -> CatAll([i \in 1..Len(g.c) |-> AllVerts(g.c[i])])
+\* ---- counts and the one-line summary (String() = Summary())
+RECURSIVE NumTotal(_)
+NumTotal(g) == IF g.t # "GeometryCollection" THEN 0
+               ELSE LET f[i \in 0..Len(g.c)] == IF i = 0 THEN 0 ELSE f[i-1] + 1 + NumTotal(g.c[i]) IN f[Len(g.c)]
+NumRingsOf(g) == CASE g.t = "Polygon" -> Len(g.c)
+                   [] g.t = "MultiPolygon" -> LET f[i \in 0..Len(g.c)] == IF i = 0 THEN 0 ELSE f[i-1] + Len(g.c[i]) IN f[Len(g.c)]
+                   [] OTHER -> 0
+Pl(n, one, many) == IF n = 1 THEN one ELSE many
+Summary(g) ==
+  LET np == Len(AllVerts(g)) hd == g.t \o "[" \o g.ct \o "] with " IN
+  CASE g.t = "Point" -> hd \o (IF g.c = <<>> THEN "0 points" ELSE "1 point")
+    [] g.t = "LineString" -> hd \o ToString(Len(g.c)) \o " points"
+    [] g.t = "Polygon" -> hd \o ToString(Len(g.c)) \o Pl(Len(g.c), " ring", " rings") \o " consisting of " \o ToString(np) \o " total points"
+    [] g.t = "MultiPoint" -> hd \o ToString(Len(g.c)) \o Pl(Len(g.c), " point", " points")   \* members, empty ones included
+    [] g.t = "MultiLineString" -> hd \o ToString(Len(g.c)) \o Pl(Len(g.c), " linestring", " linestrings") \o " consisting of " \o ToString(np) \o " total points"
+    [] g.t = "MultiPolygon" -> hd \o ToString(Len(g.c)) \o Pl(Len(g.c), " polygon", " polygons") \o " consisting of "
+                               \o ToString(NumRingsOf(g)) \o Pl(NumRingsOf(g), " total ring", " total rings") \o " and " \o ToString(np) \o " total points"
+    [] OTHER -> hd \o ToString(NumTotal(g)) \o Pl(NumTotal(g), " child geometry", " child geometries") \o " consisting of "
+                \o ToString(np) \o Pl(np, " total point", " total points")
 \* ring-wise equal or reversed (orientation forcing)
 SameOrRev(a,b) == SameLine(a,b) \/ SameLine(a, RevSeq(b))
 RECURSIVE SameUpToRings(_,_)
@@ -85,5 +104,5 @@ Apply(act, arg, g) ==
     [] act = "mkgc1" -> MkGC(<<g>>)
     [] act = "mkmulti" -> MkMulti(<<g, arg>>)
     [] act = "mkpoly" -> MkPoly(<<g, arg>>)
-    [] act \in {"snap0","densify","wkb","wkt","forcecw","forceccw"} -> g
+    [] act \in {"snap0","densify","wkb","wkt","forcecw","forceccw","viactor"} -> g
 =============================================================================
